@@ -4,6 +4,7 @@ pub fn all() -> Vec<(&'static str, fn())> {
     vec![
         ("c01_fold_lore_begin_pos_overflow", c01_fold_lore_begin_pos_overflow),
         ("c01_fold_lore_pos_beyond_trace_then_par", c01_fold_lore_pos_beyond_trace_then_par),
+        ("c04_par_left_not_repositioned_honest", c04_par_left_not_repositioned_honest),
     ]
 }
 
@@ -54,4 +55,47 @@ fn c01_fold_lore_pos_beyond_trace_then_par() {
     let cur = data(vec![ap_state(0), fold_state(vec![(0, (1000, 0), (1000, 0))])], <_>::default(), 0);
     let o = run(air, vec![], cur, PEER, no_call_results());
     report(&o);
+}
+
+fn results(pairs: &[(u32, &str)]) -> SerializedCallResults {
+    let mut m = CallResults::new();
+    for (id, v) in pairs {
+        m.insert(id.to_string(), CallServiceResult::ok(&serde_json::json!(*v)));
+    }
+    CallResultsRepr.serialize(&m).unwrap()
+}
+
+pub fn run_ttl(air: &str, prev: Vec<u8>, cur: Vec<u8>, peer: &str, ttl: u32, call_results: SerializedCallResults) -> InterpreterOutcome {
+    let mut p = params(peer);
+    p.ttl = ttl;
+    air::execute_air(air.to_string(), prev, cur, p, call_results)
+}
+
+/// Kani (par_fsm_repositions): after the left subgraph of a par the slider is re-positioned with
+/// set_position_and_len(pos + left, left), whose error is ignored; it fails whenever
+/// pos + 2*left > trace_len, e.g. for the honest trace [par(2,1), x, y, z].  If the left subgraph is
+/// left early in a later run (here: a match on %ttl% that no longer holds, caught by xor), the right
+/// subgraph reads y's state for z.  All peers honest, one peer, deterministic services.
+fn c04_par_left_not_repositioned_honest() {
+    let air = r#"
+    (par
+        (xor
+            (seq
+                (call "A" ("s" "x") [] r1)
+                (match %ttl% 10
+                    (call "A" ("s" "y") [] r2)))
+            (null))
+        (call "A" ("s" "z") [] r3))"#;
+    let o1 = run_ttl(air, vec![], vec![], "A", 10, no_call_results());
+    report(&o1);
+    let o2 = run_ttl(air, o1.data.clone(), vec![], "A", 10, results(&[(1, "rx"), (2, "rz")]));
+    report(&o2);
+    let o3 = run_ttl(air, o2.data.clone(), vec![], "A", 10, results(&[(3, "ry")]));
+    report(&o3);
+    let d3 = InterpreterData::try_from_slice(&InterpreterDataEnvelope::try_from_slice(&o3.data).unwrap().inner_data).unwrap();
+    println!("TRACE3 {:?}", d3.trace);
+    // the same peer runs the particle again later: only %ttl% differs
+    let o4 = run_ttl(air, o3.data.clone(), vec![], "A", 5, no_call_results());
+    report(&o4);
+    assert!(o4.ret_code == 0, "honest re-run failed with code {}: {}", o4.ret_code, o4.error_message);
 }
